@@ -634,6 +634,9 @@ class PathCtx:
         self.opts = opts or {}
         self.solver = z3.Solver()
         self.solver.set('timeout', int(self.opts.get('branch_timeout_ms', 250)))
+        # a deterministic resource limit as well: some z3 procedures (array-theory internalisation of large lambda terms) do not
+        # look at the wall-clock timeout and were seen to run for an hour; `unknown` counts as feasible
+        self.solver.set('rlimit', int(self.opts.get('branch_rlimit', 4000000)))
         self.dropped = []
         self.trace = []
         self.ghost = {}
@@ -687,9 +690,13 @@ class PathCtx:
     def feasible(self, cond):
         self._sync_facts()
         self.solver.push()
-        self.solver.add(cond)
-        r = self.solver.check()
-        self.solver.pop()
+        try:
+            self.solver.add(cond)
+            r = self.solver.check()
+        except z3.Z3Exception:
+            r = z3.unknown        # e.g. the memory cap of the in-process solver: undecided, hence feasible
+        finally:
+            self.solver.pop()
         return r != z3.unsat
 
     def branch(self, cond):
